@@ -391,4 +391,21 @@ example : SameEntries ex.view ex2.view ∧ ex.substvars.Perm ex2.substvars :=
 /-- different meanings, different texts: `a | b` and `a, b` -/
 example : ¬ SameEntries [[1, 2]] [[1], [2]] := fun h => by simpa using h.length_eq
 
+example : (outTree ex).text = (outTree ex2).text :=
+  C13_order_independent' ex ex2 ex_wf ex2_wf
+    ((sameEntries_iff_perm_sortRels (view_validEntry ex ex_wf)).1 ex_same.1) ex_same.2
+
+example : outView ex = outView ex2 ∧ outSubst ex = outSubst ex2 :=
+  C13_order_independent_view ex ex2 ex_wf ex_same.1 ex_same.2
+
+example : (outTree ex).text = (outTree ex2).text ↔ (SameEntries ex.view ex2.view ∧ ex.substvars.Perm ex2.substvars) :=
+  C13_one_text_per_meaning ex ex2 ex_wf ex2_wf
+
+example : ∃ V, accEntries (outTree ex) = some V ∧ SameEntries V ex.view
+    ∧ (substvars (outTree ex)).Perm ex.substvars := C13_meaning_multiset_tree ex ex_wf
+
+/-- ties under the sort keys are identical values: instances of the injectivity lemmas -/
+example : sortRels [rLibc, rGpp] = sortRels [rGpp, rLibc] :=
+  sortRels_perm (view_validEntry ex ex_wf _ (by rw [ex_view]; simp)) (List.Perm.swap _ _ _)
+
 end Deb822Verif.Props.C13
